@@ -10,7 +10,7 @@ exactly one universe; every object held by a problem's collections is linked to 
 
 Model: `Model/Links.lean` (the repaired code).  Helper lemmas: `Lemmas/Links.lean`.
 Where the code refutes the full statement there is a `_refuted` theorem with a concrete witness history and a
-`_partial` theorem whose extra hypothesis is a named predicate (`NoClones`, `UnivOK`, a linked target).
+`_partial` theorem whose extra hypothesis is a named predicate (`HasUniverse`, `CompLinked`).
 -/
 namespace MontePyVerif.Links
 
@@ -29,25 +29,24 @@ theorem InvContain.ext {st st' : St} (h : InvContain st) (e : Ext st st') : InvC
 
 /-- `st'` has the same geometries and containers (only other fields moved) -/
 def Same (st st' : St) : Prop :=
-  st'.sshape = st.sshape ∧ ∀ x, (st'.cellOf x).geom = (st.cellOf x).geom ∧
+  ∀ x, (st'.cellOf x).geom = (st.cellOf x).geom ∧
     (st'.cellOf x).surfs = (st.cellOf x).surfs ∧ (st'.cellOf x).comps = (st.cellOf x).comps
 
-theorem Same.refl (st : St) : Same st st := ⟨rfl, fun _ => ⟨rfl, rfl, rfl⟩⟩
+theorem Same.refl (st : St) : Same st st := fun _ => ⟨rfl, rfl, rfl⟩
 
 theorem Same.trans {a b c : St} (h1 : Same a b) (h2 : Same b c) : Same a c :=
-  ⟨h2.1.trans h1.1, fun x => ⟨(h2.2 x).1.trans (h1.2 x).1, (h2.2 x).2.1.trans (h1.2 x).2.1,
-    (h2.2 x).2.2.trans (h1.2 x).2.2⟩⟩
+  fun x => ⟨(h2 x).1.trans (h1 x).1, (h2 x).2.1.trans (h1 x).2.1, (h2 x).2.2.trans (h1 x).2.2⟩
 
 theorem InvContain.same {st st' : St} (h : InvContain st) (e : Same st st') : InvContain st' := by
   intro c g hg
-  rw [(e.2 c).1] at hg
+  rw [(e c).1] at hg
   have := h c g hg
-  exact ⟨this.1, by rw [(e.2 c).2.1]; exact this.2.1, by rw [(e.2 c).2.2]; exact this.2.2⟩
+  exact ⟨this.1, by rw [(e c).2.1]; exact this.2.1, by rw [(e c).2.2]; exact this.2.2⟩
 
 theorem same_updCell (st : St) (c : ObjId) (f : CellSt → CellSt)
     (hf : ∀ cs, (f cs).geom = cs.geom ∧ (f cs).surfs = cs.surfs ∧ (f cs).comps = cs.comps) :
     Same st (st.updCell c f) := by
-  refine ⟨rfl, fun x => ?_⟩
+  intro x
   simp only [updCell_cellOf]
   split
   · subst_vars; exact hf _
@@ -55,7 +54,7 @@ theorem same_updCell (st : St) (c : ObjId) (f : CellSt → CellSt)
 
 theorem same_setLinked (st : St) (k : Kind) (o : ObjId) : Same st (st.setLinked k o) := by
   cases k
-  · exact ⟨rfl, fun x => linkCell_cellOf st o x⟩
+  · exact fun x => linkCell_cellOf st o x
   all_goals exact Same.refl _
 
 theorem same_setMembers (st : St) (k : Kind) (l : List ObjId) : Same st (st.setMembers k l) := by
@@ -72,11 +71,11 @@ theorem same_foldl {α : Type} (f : St → α → St) (hf : ∀ s x, Same s (f s
   | cons a t ih => intro st; exact (hf st a).trans (ih (f st a))
 
 theorem same_setMaterial (st : St) (c : ObjId) (m : Option ObjId) : Same st (setMaterial st c m).1 :=
-  (same_updCell st c (fun cs => { cs with mat := m }) (fun _ => ⟨rfl, rfl, rfl⟩)).trans ⟨rfl, fun _ => ⟨rfl, rfl, rfl⟩⟩
+  (same_updCell st c (fun cs => { cs with mat := m }) (fun _ => ⟨rfl, rfl, rfl⟩)).trans (fun _ => ⟨rfl, rfl, rfl⟩)
 
 theorem same_setUniverse (st : St) (c u : ObjId) : Same st (setUniverse st c u).1 :=
   (same_updCell st c (fun cs => { cs with univ := some u }) (fun _ => ⟨rfl, rfl, rfl⟩)).trans
-    ⟨rfl, fun _ => ⟨rfl, rfl, rfl⟩⟩
+    (fun _ => ⟨rfl, rfl, rfl⟩)
 
 /-- the edits that do not touch any geometry or container -/
 theorem same_step (st : St) (op : Op)
@@ -92,7 +91,7 @@ theorem same_step (st : St) (op : Op)
     split
     · exact same_foldl (fun s c => (setUniverse s c u).1) (fun s x => same_setUniverse s x u) cs st
     · exact Same.refl st
-  | setFill c u => exact same_updCell st c _ (fun _ => ⟨rfl, rfl, rfl⟩)
+  | setFill c u => exact same_updCell st c (fun cs => { cs with fill := u }) (fun _ => ⟨rfl, rfl, rfl⟩)
   | setNumber k o n =>
     simp only [step, setNumber]
     split
@@ -146,67 +145,58 @@ theorem inv_setGeom {st : St} {c : ObjId} {g : HS} (h : InvContain st) (hg : Goo
     have := h x g' hg''
     exact ⟨this.1, by simpa [hx] using this.2.1, by simpa [hx] using this.2.2⟩
 
-theorem setGeometry_inv {st : St} (c : ObjId) (g : HS) (h : InvContain st) (hn : NoClones st) :
-    InvContain (setGeometry st c g).1 ∧ (setGeometry st c g).1.sshape = st.sshape := by
+theorem setGeometry_inv {st : St} (c : ObjId) (g : HS) (h : InvContain st) :
+    InvContain (setGeometry st c g).1 := by
   unfold setGeometry
   have hs := addChildren_spec st c g
   generalize addChildren st c g = r at hs ⊢
   obtain ⟨st1, e⟩ := r
   cases e with
-  | some err => exact ⟨h.ext hs.1, hs.1.shape⟩
+  | some err => exact h.ext hs.1
   | none =>
     dsimp only at hs ⊢
-    have := hs.2 rfl hn
-    refine ⟨inv_setGeom (h.ext hs.1) ⟨setCell_allCell c g, ?_, ?_⟩, hs.1.shape⟩
+    have := hs.2 rfl
+    refine inv_setGeom (h.ext hs.1) ⟨setCell_allCell c g, ?_, ?_⟩
     · simpa using this.1
     · simpa using this.2
 
-theorem noClones_of_shape {st st' : St} (h : NoClones st) (e : st'.sshape = st.sshape) : NoClones st' := by
-  intro a b hab
-  rw [e] at hab
-  exact h a b hab
-
-theorem iopCell_inv {st : St} (u : Bool) (c : ObjId) (other : HS) (h : InvContain st) (hn : NoClones st) :
-    InvContain (iopCell u st c other).1 ∧ (iopCell u st c other).1.sshape = st.sshape := by
+theorem iopCell_inv {st : St} (u : Bool) (c : ObjId) (other : HS) (h : InvContain st) :
+    InvContain (iopCell u st c other).1 := by
   unfold iopCell
   split
-  · exact ⟨h, rfl⟩
+  · exact h
   · rename_i g hg
-    have hs := iop_spec u c other g st hn (h c g hg)
+    have hs := iop_spec u c other g st (h c g hg)
     generalize iop u st g other = res at hs ⊢
     obtain ⟨⟨st1, e1⟩, g1, ret⟩ := res
     cases e1 with
-    | some err => exact ⟨inv_setGeom (h.ext hs.1) hs.2, hs.1.shape⟩
+    | some err => exact inv_setGeom (h.ext hs.1) hs.2
     | none =>
       have h2 : InvContain (st1.updCell c (fun cs => { cs with geom := some g1 })) := inv_setGeom (h.ext hs.1) hs.2
-      have hn2 : NoClones (st1.updCell c (fun cs => { cs with geom := some g1 })) :=
-        noClones_of_shape hn hs.1.shape
       dsimp only at hs ⊢
       cases ret with
       | none =>
-        have := setGeometry_inv c g1 h2 hn2
-        exact ⟨this.1, this.2.trans hs.1.shape⟩
+        exact setGeometry_inv c g1 h2
       | some n =>
-        have := setGeometry_inv c n h2 hn2
-        exact ⟨this.1, this.2.trans hs.1.shape⟩
+        exact setGeometry_inv c n h2
 
-theorem iopAlias_inv {st : St} (u : Bool) (c : ObjId) (other : HS) (h : InvContain st) (hn : NoClones st) :
-    InvContain (iopAlias u st c other).1 ∧ (iopAlias u st c other).1.sshape = st.sshape := by
+theorem iopAlias_inv {st : St} (u : Bool) (c : ObjId) (other : HS) (h : InvContain st) :
+    InvContain (iopAlias u st c other).1 := by
   unfold iopAlias
   split
-  · exact ⟨h, rfl⟩
+  · exact h
   · rename_i g hg
-    have hs := iop_spec u c other g st hn (h c g hg)
+    have hs := iop_spec u c other g st (h c g hg)
     generalize iop u st g other = res at hs ⊢
     obtain ⟨⟨st1, e1⟩, g1, ret⟩ := res
-    exact ⟨inv_setGeom (h.ext hs.1) hs.2, hs.1.shape⟩
+    exact inv_setGeom (h.ext hs.1) hs.2
 
 theorem setChild_inv {st : St} (c : ObjId) (path : List Bool) (right : Bool) (new : HS)
-    (h : InvContain st) (hn : NoClones st) :
-    InvContain (setChild st c path right new).1 ∧ (setChild st c path right new).1.sshape = st.sshape := by
+    (h : InvContain st) :
+    InvContain (setChild st c path right new).1 := by
   unfold setChild
   split
-  · exact ⟨h, rfl⟩
+  · exact h
   · rename_i g hg
     have hgood := h c g hg
     split
@@ -218,14 +208,14 @@ theorem setChild_inv {st : St} (c : ObjId) (path : List Bool) (right : Bool) (ne
       generalize linkChild st (some c) new = lres at hs ⊢
       obtain ⟨⟨st1, e1⟩, n'⟩ := lres
       cases e1 with
-      | some err => exact ⟨h.ext hs.1, hs.1.shape⟩
+      | some err => exact h.ext hs.1
       | none =>
         have hn' : Good st1 c n' := by
           have h1 := hs.2.1 rfl
-          have h2 := hs.2.2 rfl hn
+          have h2 := hs.2.2 rfl
           simp only at h1 h2
           rw [h1]; exact h2
-        refine ⟨inv_setGeom (h.ext hs.1) (good_set g path _ (hgood.ext hs.1) ?_), hs.1.shape⟩
+        refine inv_setGeom (h.ext hs.1) (good_set g path _ (hgood.ext hs.1) ?_)
         cases right
         · exact good_bin.mpr ⟨rfl, hn', hr.ext hs.1⟩
         · exact good_bin.mpr ⟨rfl, hl.ext hs.1, hn'⟩
@@ -234,23 +224,22 @@ theorem setChild_inv {st : St} (c : ObjId) (path : List Bool) (right : Bool) (ne
       obtain ⟨hp, _⟩ := good_compl.mp hnode
       subst hp
       split
-      · exact ⟨h, rfl⟩
+      · exact h
       · have hs := linkChild_spec st c new
         generalize linkChild st (some c) new = lres at hs ⊢
         obtain ⟨⟨st1, e1⟩, n'⟩ := lres
         cases e1 with
-        | some err => exact ⟨h.ext hs.1, hs.1.shape⟩
+        | some err => exact h.ext hs.1
         | none =>
           have hn' : Good st1 c n' := by
             have h1 := hs.2.1 rfl
-            have h2 := hs.2.2 rfl hn
+            have h2 := hs.2.2 rfl
             simp only at h1 h2
             rw [h1]; exact h2
-          exact ⟨inv_setGeom (h.ext hs.1) (good_set g path _ (hgood.ext hs.1) (good_compl.mpr ⟨rfl, hn'⟩)),
-            hs.1.shape⟩
-    · exact ⟨h, rfl⟩
+          exact inv_setGeom (h.ext hs.1) (good_set g path _ (hgood.ext hs.1) (good_compl.mpr ⟨rfl, hn'⟩))
+    · exact h
 
-theorem registerDivider_spec (st : St) (c : ObjId) (ic : Bool) (d : ObjId) (hn : NoClones st) :
+theorem registerDivider_spec (st : St) (c : ObjId) (ic : Bool) (d : ObjId) :
     Ext st (registerDivider st (some c) ic d).1 ∧
     ((registerDivider st (some c) ic d).2 = none →
       (ic = true → d ∈ ((registerDivider st (some c) ic d).1.cellOf c).comps) ∧
@@ -268,16 +257,16 @@ theorem registerDivider_spec (st : St) (c : ObjId) (ic : Bool) (d : ObjId) (hn :
     simp only [Bool.false_eq_true, if_false]
     split
     · rename_i hm
-      exact ⟨Ext.refl st, fun _ => ⟨fun h => (by cases h), fun _ => (memS_iff hn _ _).mp hm⟩⟩
+      exact ⟨Ext.refl st, fun _ => ⟨fun h => (by cases h), fun _ => (memS_iff _ _ _).mp hm⟩⟩
     · have hs := cellSurfAppend_spec st c d
       exact ⟨hs.1, fun hok => ⟨fun h => (by cases h), fun _ => hs.2 hok⟩⟩
 
 theorem setDivider_inv {st : St} (c : ObjId) (path : List Bool) (ic : Bool) (d : ObjId)
-    (h : InvContain st) (hn : NoClones st) :
-    InvContain (setDivider st c path ic d).1 ∧ (setDivider st c path ic d).1.sshape = st.sshape := by
+    (h : InvContain st) :
+    InvContain (setDivider st c path ic d).1 := by
   unfold setDivider
   split
-  · exact ⟨h, rfl⟩
+  · exact h
   · rename_i g hg
     have hgood := h c g hg
     split
@@ -286,17 +275,17 @@ theorem setDivider_inv {st : St} (c : ObjId) (path : List Bool) (ic : Bool) (d :
       have hp : p = some c := by simpa [HS.allCell] using hnode.1
       subst hp
       split
-      · exact ⟨h, rfl⟩
-      · have hs := registerDivider_spec st c ic0 d hn
+      · exact h
+      · have hs := registerDivider_spec st c ic0 d
         generalize registerDivider st (some c) ic0 d = r at hs ⊢
         obtain ⟨st1, e1⟩ := r
         cases e1 with
-        | some err => exact ⟨h.ext hs.1, hs.1.shape⟩
+        | some err => exact h.ext hs.1
         | none =>
           dsimp only at hs
           have hg1 : (st1.cellOf c).geom = some g := by rw [hs.1.geom c]; exact hg
           simp only [replaceDivider, hg1]
-          refine ⟨inv_setGeom (h.ext hs.1) (good_set g path _ (hgood.ext hs.1) ?_), hs.1.shape⟩
+          refine inv_setGeom (h.ext hs.1) (good_set g path _ (hgood.ext hs.1) ?_)
           have hm := hs.2 rfl
           refine ⟨by simp [HS.allCell], ?_, ?_⟩
           · intro s hs'
@@ -309,87 +298,70 @@ theorem setDivider_inv {st : St} (c : ObjId) (path : List Bool) (ic : Bool) (d :
             · simp [HS.comps] at hs'
             · simp only [HS.comps, if_true, List.mem_singleton] at hs'
               subst hs'; exact hm.1 rfl
-    · exact ⟨h, rfl⟩
+    · exact h
 
-/-- **C16_contain_step** — every edit of the quantifier (geometry assignment, `&=`, `|=`, in-place `&=`/`|=`
+/-- **C16_contain_step** — every modelled operation (geometry assignment, `&=`, `|=`, in-place `&=`/`|=`
     through an alias, divider / left / right replacement, material, universe, claim, fill, renumbering,
-    collection insertion and removal, the materials / cells setters, `add_cell_children_to_problem`) keeps
-    `leaves ⊆ surfaces ∪ complements` for every cell, *also when the edit raises*, provided no two distinct
-    surfaces are `==` (`NoClones`, see `C16_contain_refuted`).  A refused geometry operand registers nothing
-    (repaired code), `remove_duplicate_surfaces` without duplicates touches no link. -/
-theorem C16_contain_step (st : St) (op : Op) (h : InvContain st) (hn : NoClones st) :
-    InvContain (step st op).1 ∧ NoClones (step st op).1 := by
-  have same : Same st (step st op).1 → InvContain (step st op).1 ∧ NoClones (step st op).1 :=
-    fun e => ⟨h.same e, noClones_of_shape hn e.1⟩
-  have geo : InvContain (step st op).1 ∧ (step st op).1.sshape = st.sshape →
-      InvContain (step st op).1 ∧ NoClones (step st op).1 := fun e => ⟨e.1, noClones_of_shape hn e.2⟩
+    collection insertion and removal, the materials / cells setters, `add_cell_children_to_problem`,
+    `remove_duplicate_surfaces` without duplicates) keeps `leaves ⊆ surfaces ∪ complements` for every cell,
+    *also when the edit raises*.  No side condition: since the identity repairs an equal copy of a surface is
+    just another surface (it is registered, or the edit is refused). -/
+theorem C16_contain_step (st : St) (op : Op) (h : InvContain st) : InvContain (step st op).1 := by
   cases op with
-  | setGeometry c g => exact geo (setGeometry_inv c g h hn)
-  | iopCell u c g => exact geo (iopCell_inv u c g h hn)
-  | iopAlias u c g => exact geo (iopAlias_inv u c g h hn)
-  | setDivider c p ic d => exact geo (setDivider_inv c p ic d h hn)
-  | setChild c p r g => exact geo (setChild_inv c p r g h hn)
-  | reupdate => exact same (same_step st _ trivial)
-  | setMaterial c m => exact same (same_step st _ trivial)
-  | setUniverse c u => exact same (same_step st _ trivial)
-  | claim u cs => exact same (same_step st _ trivial)
-  | setFill c u => exact same (same_step st _ trivial)
-  | setNumber k o n => exact same (same_step st _ trivial)
-  | append k o => exact same (same_step st _ trivial)
-  | remove k o => exact same (same_step st _ trivial)
-  | setMaterials ms => exact same (same_step st _ trivial)
-  | setCells cs => exact same (same_step st _ trivial)
-  | addCellChildren => exact same (same_step st _ trivial)
+  | setGeometry c g => exact setGeometry_inv c g h
+  | iopCell u c g => exact iopCell_inv u c g h
+  | iopAlias u c g => exact iopAlias_inv u c g h
+  | setDivider c p ic d => exact setDivider_inv c p ic d h
+  | setChild c p r g => exact setChild_inv c p r g h
+  | reupdate => exact h.same (same_step st _ trivial)
+  | setMaterial c m => exact h.same (same_step st _ trivial)
+  | setUniverse c u => exact h.same (same_step st _ trivial)
+  | claim u cs => exact h.same (same_step st _ trivial)
+  | setFill c u => exact h.same (same_step st _ trivial)
+  | setNumber k o n => exact h.same (same_step st _ trivial)
+  | append k o => exact h.same (same_step st _ trivial)
+  | remove k o => exact h.same (same_step st _ trivial)
+  | setMaterials ms => exact h.same (same_step st _ trivial)
+  | setCells cs => exact h.same (same_step st _ trivial)
+  | addCellChildren => exact h.same (same_step st _ trivial)
 
 /-- **C16_contain** — induction over edit histories: from any state that satisfies the invariant (the
-    empty pool does: `C16_contain_blank`) every history of edits leads to a state that satisfies it. -/
-theorem C16_contain (ops : List Op) : ∀ (st : St), InvContain st → NoClones st → InvContain (run st ops) := by
+    empty pool: `C16_contain_blank`; the cells of a file after `load`: `C16_load_contain`) every history of
+    operations leads to a state that satisfies it. -/
+theorem C16_contain (ops : List Op) : ∀ (st : St), InvContain st → InvContain (run st ops) := by
   induction ops with
-  | nil => intro st h _; exact h
-  | cons op t ih =>
-    intro st h hn
-    have := C16_contain_step st op h hn
-    exact ih (step st op).1 this.1 this.2
+  | nil => intro st h; exact h
+  | cons op t ih => intro st h; exact ih (step st op).1 (C16_contain_step st op h)
 
 /-- the pool before anything is read or assigned satisfies the invariant -/
-theorem C16_contain_blank (cnum snum mnum unum tnum : ObjId → Int) (sshape mshape : ObjId → Nat)
-    (strans : ObjId → Option ObjId) : InvContain (St.blank cnum snum mnum unum tnum sshape mshape strans) := by
+theorem C16_contain_blank (cnum snum mnum unum tnum : ObjId → Int)
+    (strans : ObjId → Option ObjId) : InvContain (St.blank cnum snum mnum unum tnum strans) := by
   intro c g hg
   simp [St.blank] at hg
 
-/-! ### non-vacuity and the refutation without `NoClones` -/
+/-! ### non-vacuity; an equal copy is now registered or refused -/
 
 def demoOps : List Op :=
   [.setGeometry 0 (.bin false (.leaf false 0 true none) (.leaf false 1 false none) none),
    .setDivider 0 [true] false 2]
 
-/-- three surfaces; with `clones`, `0` and `2` are clones (same number, same shape) -/
+/-- three surfaces; with `clones`, surface `2` has the number of surface `0` (an equal copy, or any other
+    surface with that number: since the identity repairs there is no difference) -/
 def demo (clones : Bool) : St :=
   St.blank (fun o => o + 1) (fun o => if clones && o == 2 then 1 else o + 1) (fun o => o + 1) (fun o => o)
-    (fun o => o + 1) (fun o => if clones && o == 2 then 0 else o) (fun o => o) (fun _ => none)
+    (fun o => o + 1) (fun _ => none)
 
-theorem demo_inv (b : Bool) : InvContain (demo b) := C16_contain_blank _ _ _ _ _ _ _ _
-
-
-example : NoClones (demo false) := by
-  intro a b hab
-  simpa [demo, St.blank] using hab
+theorem demo_inv (b : Bool) : InvContain (demo b) := C16_contain_blank _ _ _ _ _ _
 
 /-- a non-trivial history (assignment, then replacement of a leaf's divider by a third surface) reaches a
     state where the containers really were extended -/
 example : ((run (demo false) demoOps).cellOf 0).surfs = [0, 1, 2] := by decide
 
-/-- **C16_contain_refuted** — without `NoClones` the statement is false in the model as in the code:
-    replacing a divider by a distinct-but-equal surface is not registered (known finding C16-F1a). -/
-theorem C16_contain_refuted :
-    ¬ (∀ (st : St) (ops : List Op), InvContain st → InvContain (run st ops)) := by
-  intro hall
-  have h := hall (demo true) demoOps (demo_inv true)
-  have hg := h 0 _ (by decide : ((run (demo true) demoOps).cellOf 0).geom =
-    some (.bin false (.leaf false 0 true (some 0)) (.leaf false 2 false (some 0)) (some 0)))
-  have : (2 : ObjId) ∈ ((run (demo true) demoOps).cellOf 0).surfs := hg.2.1 2 (by decide)
-  revert this
-  decide
+/-- the history that refuted the statement before the identity repairs (former finding C16-F1a): the copy
+    with the taken number is *refused*, the geometry keeps its old divider -/
+example : (step (step (demo true) demoOps[0]).1 demoOps[1]).2 = some .numberConflict ∧
+    ((run (demo true) demoOps).cellOf 0).geom =
+      some (.bin false (.leaf false 0 true (some 0)) (.leaf false 1 false (some 0)) (some 0)) := by decide
 
 /-! ## reverse look-ups -/
 
@@ -399,25 +371,21 @@ theorem C16_reverse_surface (st : St) (s d : ObjId) :
   unfold surfaceCells
   split <;> simp_all [List.mem_filter]
 
-/-- … and, with identity membership (`NoClones`), stated against the forward links of the *geometry*:
+/-- … stated against the forward links of the *geometry*:
     a cell of the problem whose geometry uses `s` is in `s.cells` (needs the containment invariant). -/
 theorem C16_reverse_surface_geometry (st : St) (s d : ObjId) (g : HS) (h : InvContain st)
     (hl : st.slink s = true) (hd : d ∈ st.cells) (hg : (st.cellOf d).geom = some g) (hs : s ∈ g.surfs) :
     d ∈ surfaceCells st s := by
   rw [C16_reverse_surface]
-  refine ⟨hl, hd, ?_⟩
-  unfold memS
-  rw [List.any_eq_true]
-  exact ⟨s, (h d g hg).2.1 s hs, by simp [surfEq]⟩
+  exact ⟨hl, hd, (memS_iff _ _ _).mpr ((h d g hg).2.1 s hs)⟩
 
-theorem C16_reverse_surface_exact (st : St) (hn : NoClones st) (s d : ObjId) :
+theorem C16_reverse_surface_exact (st : St) (s d : ObjId) :
     d ∈ surfaceCells st s ↔ st.slink s = true ∧ d ∈ st.cells ∧ s ∈ (st.cellOf d).surfs := by
-  rw [C16_reverse_surface, memS_iff hn]
+  rw [C16_reverse_surface, memS_iff]
 
-/-- **C16_reverse_material** -/
+/-- **C16_reverse_material** (repaired code: `cell.material is self`) -/
 theorem C16_reverse_material (st : St) (m d : ObjId) :
-    d ∈ materialCells st m ↔ st.mlink m = true ∧ d ∈ st.cells ∧
-      ∃ m', (st.cellOf d).mat = some m' ∧ matEq st m' m = true := by
+    d ∈ materialCells st m ↔ st.mlink m = true ∧ d ∈ st.cells ∧ (st.cellOf d).mat = some m := by
   unfold materialCells
   split
   · simp only [List.mem_filter]
@@ -425,10 +393,12 @@ theorem C16_reverse_material (st : St) (m d : ObjId) :
     · rintro ⟨hd, hm⟩
       refine ⟨by assumption, hd, ?_⟩
       split at hm
-      · exact ⟨_, by assumption, hm⟩
+      · rename_i m' hm'
+        have : m' = m := by simpa using hm
+        rw [hm', this]
       · cases hm
-    · rintro ⟨_, hd, m', hm', he⟩
-      exact ⟨hd, by rw [hm']; exact he⟩
+    · rintro ⟨_, hd, hm'⟩
+      exact ⟨hd, by rw [hm']; simp⟩
   · simp_all
 
 /-- **C16_reverse_universe** (`==` on universes is identity) -/
@@ -469,14 +439,14 @@ theorem C16_reverse_refuted :
 theorem C16_reverse_setMaterial (st : St) (c m : ObjId) (hl : (st.cellOf c).link = true) (hc : c ∈ st.cells) :
     c ∈ materialCells (setMaterial st c (some m)).1 m := by
   rw [C16_reverse_material]
-  refine ⟨by simp [setMaterial, hl], hc, m, by simp [setMaterial], by simp [matEq]⟩
+  exact ⟨by simp [setMaterial, hl], hc, by simp [setMaterial]⟩
 
 /-- **C16_reverse_partial** — for a linked target the reverse look-up does yield every cell of the problem
     whose forward link points at it. -/
 theorem C16_reverse_partial (st : St) (m d : ObjId) (hl : st.mlink m = true) (hd : d ∈ st.cells)
     (hm : (st.cellOf d).mat = some m) : d ∈ materialCells st m := by
   rw [C16_reverse_material]
-  exact ⟨hl, hd, m, hm, by simp [matEq]⟩
+  exact ⟨hl, hd, hm⟩
 
 example : ∃ (st : St) (m d : ObjId), st.mlink m = true ∧ d ∈ st.cells ∧ (st.cellOf d).mat = some m :=
   ⟨run (demo false) [.append .cell 0, .append .material 1, .setMaterial 0 (some 1)], 1, 0, by decide, by decide, by decide⟩
@@ -647,6 +617,116 @@ theorem setGeometry_linkExt (st : St) (c : ObjId) (g : HS) : LinkExt st (setGeom
   | none =>
     dsimp only at hs ⊢
     exact hs.linkExt.trans (linkExt_updCell st1 c _ (fun x => x))
+
+theorem setGeometry_pExt (st : St) (c : ObjId) (g : HS) : PExt st (setGeometry st c g).1 := by
+  simp only [setGeometry]
+  have hs := (addChildren_spec st c g).1
+  generalize addChildren st c g = r at hs ⊢
+  obtain ⟨st1, e⟩ := r
+  cases e with
+  | some err => exact hs.pExt
+  | none =>
+    dsimp only at hs ⊢
+    exact hs.pExt.trans (pExt_updGeom st1 c _)
+
+/-- the five geometry edits only register dividers and store geometries -/
+theorem geo_pExt (st : St) (op : Op)
+    (hop : match op with
+      | .setGeometry .. | .iopCell .. | .iopAlias .. | .setDivider .. | .setChild .. => True
+      | _ => False) : PExt st (step st op).1 := by
+  cases op with
+  | setGeometry c g => exact setGeometry_pExt st c g
+  | iopCell u c other =>
+    simp only [step, iopCell]
+    split
+    · exact PExt.refl st
+    · rename_i g hg
+      have hs := iop_pExt u other g st
+      generalize iop u st g other = res at hs ⊢
+      obtain ⟨⟨st1, e1⟩, g1, ret⟩ := res
+      cases e1 with
+      | some err => (try dsimp only at *); exact hs.trans (pExt_updGeom st1 c _)
+      | none =>
+        dsimp only at hs ⊢
+        exact (hs.trans (pExt_updGeom st1 c _)).trans (setGeometry_pExt _ c _)
+  | iopAlias u c other =>
+    simp only [step, iopAlias]
+    split
+    · exact PExt.refl st
+    · rename_i g hg
+      have hs := iop_pExt u other g st
+      generalize iop u st g other = res at hs ⊢
+      obtain ⟨⟨st1, e1⟩, g1, ret⟩ := res
+      (try dsimp only at *); exact hs.trans (pExt_updGeom st1 c _)
+  | setDivider c path ic d =>
+    simp only [step, setDivider]
+    split
+    · exact PExt.refl st
+    · split
+      · rename_i ic0 d0 side p hget
+        split
+        · exact PExt.refl st
+        · have hr : PExt st (registerDivider st p ic0 d).1 := by
+            unfold registerDivider
+            cases p with
+            | none => exact PExt.refl st
+            | some c' =>
+              simp only
+              split
+              · split
+                · exact PExt.refl st
+                · exact (cellCompAppend_spec st c' d).1.pExt
+              · split
+                · exact PExt.refl st
+                · exact (cellSurfAppend_spec st c' d).1.pExt
+          generalize registerDivider st p ic0 d = r at hr ⊢
+          obtain ⟨st1, e1⟩ := r
+          cases e1 with
+          | some err => (try dsimp only at *); exact hr
+          | none =>
+            simp only [replaceDivider]
+            split
+            · (try dsimp only at *); exact hr.trans (pExt_updGeom st1 c _)
+            · (try dsimp only at *); exact hr
+      · exact PExt.refl st
+  | setChild c path right new =>
+    simp only [step, setChild]
+    have hlc : ∀ p, PExt st (linkChild st p new).1.1 := by
+      intro p
+      cases p with
+      | none => exact PExt.refl st
+      | some c' => exact (linkChild_spec st c' new).1.pExt
+    split
+    · exact PExt.refl st
+    · split
+      · rename_i u l r p hget
+        have := hlc p
+        generalize linkChild st p new = lres at this ⊢
+        obtain ⟨⟨st1, e1⟩, n'⟩ := lres
+        cases e1 with
+        | some err => (try dsimp only at *); exact this
+        | none => (try dsimp only at *); exact this.trans (pExt_updGeom st1 c _)
+      · rename_i l p hget
+        split
+        · exact PExt.refl st
+        · have := hlc p
+          generalize linkChild st p new = lres at this ⊢
+          obtain ⟨⟨st1, e1⟩, n'⟩ := lres
+          cases e1 with
+          | some err => (try dsimp only at *); exact this
+          | none => (try dsimp only at *); exact this.trans (pExt_updGeom st1 c _)
+      · exact PExt.refl st
+  | reupdate => exact hop.elim
+  | setMaterial c m => exact hop.elim
+  | setUniverse c u => exact hop.elim
+  | claim u cs => exact hop.elim
+  | setFill c u => exact hop.elim
+  | setNumber k o n => exact hop.elim
+  | append k o => exact hop.elim
+  | remove k o => exact hop.elim
+  | setMaterials ms => exact hop.elim
+  | setCells cs => exact hop.elim
+  | addCellChildren => exact hop.elim
 
 /-- **C16_linked_step** — every edit keeps "members are linked", also when it raises: collection
     insertion links the new member, the repaired `materials` setter and `add_cell_children_to_problem` link
@@ -849,8 +929,8 @@ theorem C16_linked (ops : List Op) : ∀ (st : St), InvLinked st → InvLinked (
     intro st h
     exact ih (step st op).1 (C16_linked_step st op h)
 
-theorem C16_linked_blank (cnum snum mnum unum tnum : ObjId → Int) (sshape mshape : ObjId → Nat)
-    (strans : ObjId → Option ObjId) : InvLinked (St.blank cnum snum mnum unum tnum sshape mshape strans) := by
+theorem C16_linked_blank (cnum snum mnum unum tnum : ObjId → Int)
+    (strans : ObjId → Option ObjId) : InvLinked (St.blank cnum snum mnum unum tnum strans) := by
   intro k o ho
   cases k <;> simp [St.blank, St.members] at ho
 
@@ -946,9 +1026,6 @@ example : UniqS (demo false) := by simp [UniqS, demo, St.blank]
 
 /-! ## after `add_cell_children_to_problem` -/
 
-/-- no two distinct materials of the pool can be `==` -/
-def NoCloneM (st : St) : Prop := ∀ a b, st.mshape a = st.mshape b → a = b
-
 theorem setAdd_fold_spec (eq : ObjId → ObjId → Bool) (hrefl : ∀ o, eq o o = true) : ∀ (l acc : List ObjId),
     (∀ x ∈ acc, x ∈ l.foldl (setAdd eq) acc) ∧ (∀ o ∈ l, ∃ x ∈ l.foldl (setAdd eq) acc, eq o x = true) := by
   intro l
@@ -997,10 +1074,9 @@ theorem collect_spec (eq : ObjId → ObjId → Bool) (hrefl : ∀ o, eq o o = tr
     surface in `cell.surfaces` is a member of `problem.surfaces` (what `write_to_file` iterates for the surface
     block) and is linked; the transform of such a surface is a member of `problem.transforms`, is in
     `data_inputs` (what `write_to_file` iterates for the data block) and is linked; the cell's material is a member
-    of `problem.materials`, is in `data_inputs` and is linked.  Identity statement: needs `NoClones` / `NoCloneM`
-    (with distinct-but-equal objects only one of them becomes a member: known finding C16-F1c). -/
-theorem C16_children (st : St) (hok : (addCellChildren st).2 = none) (hs : NoClones st) (hm : NoCloneM st)
-    (c : ObjId) (hc : c ∈ st.cells) :
+    of `problem.materials`, is in `data_inputs` and is linked.  Object identity throughout, no side condition
+    (repaired code: collected by identity; two objects with one number make the call raise, `C16_children_conflict`). -/
+theorem C16_children (st : St) (hok : (addCellChildren st).2 = none) (c : ObjId) (hc : c ∈ st.cells) :
     c ∈ (addCellChildren st).1.cells ∧
     (∀ s ∈ ((addCellChildren st).1.cellOf c).surfs,
       s ∈ (addCellChildren st).1.surfaces ∧ (addCellChildren st).1.slink s = true ∧
@@ -1016,50 +1092,42 @@ theorem C16_children (st : St) (hok : (addCellChildren st).2 = none) (hs : NoClo
   · rename_i hcond
     rw [if_neg hcond]
     dsimp only
-    have hS := (collect_spec (surfEq st) (fun o => by simp [surfEq]) (fun c => (st.cellOf c).surfs) st.cells st.surfaces).2 c hc
-    have hT := (collect_spec (fun x y => x == y) (fun o => by simp)
+    have hid : ∀ o : ObjId, (fun x y : ObjId => x == y) o o = true := fun o => by simp
+    have hS := (collect_spec (fun x y => x == y) hid (fun c => (st.cellOf c).surfs) st.cells st.surfaces).2 c hc
+    have hT := (collect_spec (fun x y => x == y) hid
       (fun c => (st.cellOf c).surfs.filterMap st.strans) st.cells st.transforms).2 c hc
-    have hM := (collect_spec (matEq st) (fun o => by simp [matEq]) (fun c => (st.cellOf c).mat.toList) st.cells st.materials).2 c hc
+    have hM := (collect_spec (fun x y => x == y) hid (fun c => (st.cellOf c).mat.toList) st.cells st.materials).2 c hc
     refine ⟨hc, fun s hsm => ?_, fun m hmat => ?_⟩
     · obtain ⟨x, hx, he⟩ := hS s hsm
-      have hxe : s = x := by
-        unfold surfEq at he
-        simp only [Bool.and_eq_true, beq_iff_eq] at he
-        exact hs _ _ he.2
+      have hxe : s = x := by simpa using he
       subst hxe
       refine ⟨(mem_sortByNum _ _ _).mpr hx, by simp [hx], fun t ht => ?_⟩
       obtain ⟨y, hy, hey⟩ := hT t (List.mem_filterMap.mpr ⟨s, hsm, ht⟩)
       have : t = y := by simpa using hey
       subst this
       refine ⟨(mem_sortByNum _ _ _).mpr hy, ?_, by simp [hy]⟩
-      obtain ⟨z, hz, hez⟩ := (setAdd_fold_spec (fun x y => x == y) (fun o => by simp) _ st.dataT).2 t hy
+      obtain ⟨z, hz, hez⟩ := (setAdd_fold_spec (fun x y => x == y) hid _ st.dataT).2 t hy
       have : t = z := by simpa using hez
       subst this
       exact hz
     · obtain ⟨x, hx, he⟩ := hM m (by simp [hmat])
-      have hxe : m = x := by
-        unfold matEq at he
-        simp only [Bool.and_eq_true, beq_iff_eq] at he
-        exact hm _ _ he.2
+      have hxe : m = x := by simpa using he
       subst hxe
       refine ⟨(mem_sortByNum _ _ _).mpr hx, ?_, by simp [hx]⟩
-      obtain ⟨z, hz, hez⟩ := (setAdd_fold_spec (matEq st) (fun o => by simp [matEq]) _ st.dataM).2 m hx
-      have : m = z := by
-        unfold matEq at hez
-        simp only [Bool.and_eq_true, beq_iff_eq] at hez
-        exact hm _ _ hez.2
+      obtain ⟨z, hz, hez⟩ := (setAdd_fold_spec (fun x y => x == y) hid _ st.dataM).2 m hx
+      have : m = z := by simpa using hez
       subst this
       exact hz
 
 /-- … and against the forward links of the *geometry* (with the containment invariant): every surface the
     geometry of a cell of the problem uses is a member of `problem.surfaces` and linked afterwards. -/
 theorem C16_children_geometry (st : St) (hok : (addCellChildren st).2 = none) (hi : InvContain st)
-    (hs : NoClones st) (hm : NoCloneM st) (c : ObjId) (hc : c ∈ st.cells) (g : HS)
+    (c : ObjId) (hc : c ∈ st.cells) (g : HS)
     (hg : (st.cellOf c).geom = some g) (s : ObjId) (hsg : s ∈ g.surfs) :
     s ∈ (addCellChildren st).1.surfaces ∧ (addCellChildren st).1.slink s = true := by
   have hsame := same_step st .addCellChildren trivial
-  have h := (C16_children st hok hs hm c hc).2.1 s (by
-    have : ((addCellChildren st).1.cellOf c).surfs = (st.cellOf c).surfs := (hsame.2 c).2.1
+  have h := (C16_children st hok c hc).2.1 s (by
+    have : ((addCellChildren st).1.cellOf c).surfs = (st.cellOf c).surfs := (hsame c).2.1
     rw [this]; exact (hi c g hg).2.1 s hsg)
   exact ⟨h.1, h.2.1⟩
 
@@ -1073,13 +1141,637 @@ theorem C16_children_conflict (st : St) (h : (addCellChildren st).2 ≠ none) : 
 
 /-- non-vacuity: a cell from scratch with a new surface and a new material; afterwards both are members,
     linked, and the material is in `data_inputs` -/
-example : NoCloneM (demo false) := by
-  intro a b hab
-  simpa [demo, St.blank] using hab
-
 example :
     let st := run (demo false) [.append .cell 0, .setGeometry 0 (.leaf false 1 true none), .setMaterial 0 (some 2)]
     (addCellChildren st).2 = none ∧ (addCellChildren st).1.surfaces = [1] ∧ (addCellChildren st).1.dataM = [2] ∧
     (addCellChildren st).1.slink 1 = true ∧ (addCellChildren st).1.mlink 2 = true := by decide
+
+/-! ## the whole-history invariant -/
+
+/-- what cell `d` points at is linked to the problem: its containers' collections, every surface it holds,
+    its material, its universe -/
+def GoodCell (st : St) (d : ObjId) : Prop :=
+  (st.cellOf d).contLinked = true ∧ (∀ s ∈ (st.cellOf d).surfs, st.slink s = true) ∧
+  (∀ m, (st.cellOf d).mat = some m → st.mlink m = true) ∧ (∀ u, (st.cellOf d).univ = some u → st.ulink u = true)
+
+/-- the invariant of every reachable state: containment for every cell object, members of the five collections
+    linked, and whatever a cell *of the problem* points at linked (so that the reverse look-ups see the cell) -/
+structure Reach (st : St) : Prop where
+  contain : InvContain st
+  linked : InvLinked st
+  good : ∀ d ∈ st.cells, GoodCell st d
+
+theorem GoodCell.pExt {st st' : St} {d : ObjId} (h : GoodCell st d) (e : PExt st st') : GoodCell st' d := by
+  obtain ⟨hc, hs, hm, hu⟩ := h
+  refine ⟨e.cont d hc, fun s hs' => ?_, fun m hm' => ?_, fun u hu' => ?_⟩
+  · rcases e.newSurf d s hs' with h1 | h1
+    · exact e.linked .surface s (hs s h1)
+    · exact h1 hc
+  · rw [e.mat d] at hm'; exact e.linked .material m (hm m hm')
+  · rw [e.univ d] at hu'; exact e.linked .universe u (hu u hu')
+
+theorem GoodCell.mono {st st' : St} {d : ObjId} (h : GoodCell st d)
+    (hcell : (st'.cellOf d).surfs = (st.cellOf d).surfs ∧ (st'.cellOf d).mat = (st.cellOf d).mat ∧
+      (st'.cellOf d).univ = (st.cellOf d).univ ∧
+      ((st.cellOf d).contLinked = true → (st'.cellOf d).contLinked = true))
+    (hs : ∀ x, st.slink x = true → st'.slink x = true) (hm : ∀ x, st.mlink x = true → st'.mlink x = true)
+    (hu : ∀ x, st.ulink x = true → st'.ulink x = true) : GoodCell st' d := by
+  obtain ⟨h1, h2, h3, h4⟩ := h
+  refine ⟨hcell.2.2.2 h1, fun s hs' => ?_, fun m hm' => ?_, fun u hu' => ?_⟩
+  · rw [hcell.1] at hs'; exact hs s (h2 s hs')
+  · rw [hcell.2.1] at hm'; exact hm m (h3 m hm')
+  · rw [hcell.2.2.1] at hu'; exact hu u (h4 u hu')
+
+theorem goodCell_linkCell_self (st : St) (o : ObjId) : GoodCell (st.linkCell o) o := by
+  refine ⟨?_, ?_, ?_, ?_⟩
+  · simp [St.linkCell]
+  · intro s hs
+    have : s ∈ (st.cellOf o).surfs := by simpa [St.linkCell] using hs
+    simp [St.linkCell, this]
+  · intro m hm
+    have : (st.cellOf o).mat = some m := by simpa [St.linkCell] using hm
+    simp [St.linkCell, this]
+  · intro u hu
+    have : (st.cellOf o).univ = some u := by simpa [St.linkCell] using hu
+    simp [St.linkCell, this]
+
+theorem goodCell_setUniverse (st : St) (c u d : ObjId) (h : GoodCell st d) (hl : d = c → (st.cellOf c).link = true) :
+    GoodCell (setUniverse st c u).1 d := by
+  obtain ⟨h1, h2, h3, h4⟩ := h
+  unfold GoodCell setUniverse
+  simp only [updCell_cellOf]
+  by_cases hdc : d = c
+  · subst hdc
+    simp only [if_true]
+    refine ⟨h1, h2, h3, fun u' hu' => ?_⟩
+    have : u = u' := by simpa using hu'
+    subst this
+    simp [hl rfl]
+  · simp only [hdc, if_false]
+    refine ⟨h1, h2, h3, fun u' hu' => ?_⟩
+    split
+    · rfl
+    · exact h4 u' hu'
+
+theorem goodCell_setMaterial (st : St) (c : ObjId) (m : Option ObjId) (d : ObjId) (h : GoodCell st d)
+    (hl : d = c → (st.cellOf c).link = true) : GoodCell (setMaterial st c m).1 d := by
+  obtain ⟨h1, h2, h3, h4⟩ := h
+  unfold GoodCell setMaterial
+  simp only [updCell_cellOf]
+  by_cases hdc : d = c
+  · subst hdc
+    simp only [if_true]
+    refine ⟨h1, h2, fun m' hm' => ?_, h4⟩
+    subst hm'
+    simp [hl rfl]
+  · simp only [hdc, if_false]
+    refine ⟨h1, h2, fun m' hm' => ?_, h4⟩
+    split
+    · rfl
+    · exact h3 m' hm'
+
+theorem reach_setUniverse (st : St) (c u : ObjId) (h : Reach st) : Reach (setUniverse st c u).1 :=
+  ⟨h.contain.same (same_setUniverse st c u), h.linked.ext (setUniverse_linkExt st c u),
+   fun d hd => goodCell_setUniverse st c u d (h.good d hd) (fun e => by subst e; exact h.linked .cell d hd)⟩
+
+theorem reach_foldl_setUniverse (u : ObjId) : ∀ (cs : List ObjId) (st : St), Reach st →
+    Reach (cs.foldl (fun s c => (setUniverse s c u).1) st) := by
+  intro cs
+  induction cs with
+  | nil => intro st h; exact h
+  | cons a t ih => intro st h; exact ih _ (reach_setUniverse st a u h)
+
+/-- folding `Cell.link_to_problem` over a list: every listed cell ends up good, nothing else moves -/
+theorem linkCells_spec : ∀ (l : List ObjId) (st : St),
+    Ext st (l.foldl (fun s c => s.setLinked .cell c) st) ∧
+    ∀ d ∈ l, GoodCell (l.foldl (fun s c => s.setLinked .cell c) st) d := by
+  intro l
+  induction l with
+  | nil => intro st; exact ⟨Ext.refl st, fun d hd => by cases hd⟩
+  | cons a t ih =>
+    intro st
+    simp only [List.foldl_cons]
+    obtain ⟨e, hg⟩ := ih (st.setLinked .cell a)
+    have e0 : Ext st (st.setLinked .cell a) := linkCell_ext st a
+    refine ⟨e0.trans e, fun d hd => ?_⟩
+    rcases List.mem_cons.mp hd with rfl | ht
+    · exact (goodCell_linkCell_self st d).pExt e.pExt
+    · exact hg d ht
+
+/-- **C16_step** — every modelled operation preserves the invariant `Reach`, also when it raises. -/
+theorem C16_step (st : St) (op : Op) (h : Reach st) : Reach (step st op).1 := by
+  refine ⟨C16_contain_step st op h.contain, C16_linked_step st op h.linked, ?_⟩
+  have geo : PExt st (step st op).1 → ∀ d ∈ (step st op).1.cells, GoodCell (step st op).1 d := by
+    intro e d hd
+    have : (step st op).1.cells = st.cells := e.members .cell
+    rw [this] at hd
+    exact (h.good d hd).pExt e
+  cases op with
+  | setGeometry c g => exact geo (geo_pExt st _ trivial)
+  | iopCell u c g => exact geo (geo_pExt st _ trivial)
+  | iopAlias u c g => exact geo (geo_pExt st _ trivial)
+  | setDivider c p ic d => exact geo (geo_pExt st _ trivial)
+  | setChild c p r g => exact geo (geo_pExt st _ trivial)
+  | reupdate => exact h.good
+  | setMaterial c m =>
+    intro d hd
+    exact goodCell_setMaterial st c m d (h.good d hd) (fun e => by subst e; exact h.linked .cell d hd)
+  | setUniverse c u => exact (reach_setUniverse st c u h).good
+  | claim u cs =>
+    simp only [step, claim]
+    split
+    · exact (reach_foldl_setUniverse u cs st h).good
+    · exact h.good
+  | setFill c u =>
+    intro d hd
+    refine (h.good d hd).mono ?_ (fun _ hx => hx) (fun _ hx => hx) (fun _ hx => hx)
+    simp only [step, setFill, updCell_cellOf]
+    split <;> (try subst_vars) <;> exact ⟨rfl, rfl, rfl, fun hx => hx⟩
+  | setNumber k o n =>
+    simp only [step, setNumber]
+    split
+    · exact h.good
+    · split
+      · exact h.good
+      · intro d hd
+        have hcells : (st.setNum k o n).cells = st.cells := by cases k <;> rfl
+        rw [hcells] at hd
+        refine (h.good d hd).mono ?_ ?_ ?_ ?_
+        · cases k <;> exact ⟨rfl, rfl, rfl, fun hx => hx⟩
+        all_goals (intro x hx; cases k <;> exact hx)
+  | append k o =>
+    simp only [step, collAppend]
+    split
+    · exact h.good
+    · cases k
+      · intro d hd
+        have e : Ext (st.setMembers .cell (st.members .cell ++ [o])) ((st.setMembers .cell (st.members .cell ++ [o])).setLinked .cell o) :=
+          linkCell_ext _ o
+        have hd' : d ∈ st.cells ++ [o] := hd
+        rcases List.mem_append.mp hd' with hd1 | hd1
+        · have hg : GoodCell (st.setMembers .cell (st.members .cell ++ [o])) d := h.good d hd1
+          exact hg.pExt e.pExt
+        · simp only [List.mem_singleton] at hd1
+          subst hd1
+          exact goodCell_linkCell_self _ d
+      · intro d hd
+        exact (h.good d hd).mono ⟨rfl, rfl, rfl, fun hx => hx⟩
+          (fun x hx => by show upd st.slink o true x = true; unfold upd; split <;> first | rfl | exact hx)
+          (fun _ hx => hx) (fun _ hx => hx)
+      · intro d hd
+        exact (h.good d hd).mono ⟨rfl, rfl, rfl, fun hx => hx⟩ (fun _ hx => hx)
+          (fun x hx => by show upd st.mlink o true x = true; unfold upd; split <;> first | rfl | exact hx)
+          (fun _ hx => hx)
+      · intro d hd
+        exact (h.good d hd).mono ⟨rfl, rfl, rfl, fun hx => hx⟩ (fun _ hx => hx) (fun _ hx => hx)
+          (fun x hx => by show upd st.ulink o true x = true; unfold upd; split <;> first | rfl | exact hx)
+      · intro d hd
+        exact (h.good d hd).mono ⟨rfl, rfl, rfl, fun hx => hx⟩ (fun _ hx => hx) (fun _ hx => hx) (fun _ hx => hx)
+  | remove k o =>
+    simp only [step, collRemove]
+    split
+    · exact h.good
+    · intro d hd
+      have hsub : d ∈ st.cells := by
+        cases k
+        · exact List.mem_of_mem_erase hd
+        all_goals exact hd
+      refine (h.good d hsub).mono ?_ ?_ ?_ ?_
+      · cases k <;> exact ⟨rfl, rfl, rfl, fun hx => hx⟩
+      all_goals (intro x hx; cases k <;> exact hx)
+  | setMaterials ms =>
+    simp only [step, setMaterials]
+    split
+    · intro d hd
+      exact (h.good d hd).mono ⟨rfl, rfl, rfl, fun hx => hx⟩ (fun _ hx => hx)
+        (fun x hx => by show (if ms.contains x then true else st.mlink x) = true; split <;> first | rfl | exact hx)
+        (fun _ hx => hx)
+    · exact h.good
+  | setCells cs =>
+    simp only [step, setCells]
+    split
+    · obtain ⟨e, hg⟩ := linkCells_spec cs { st with cells := cs }
+      intro d hd
+      have hcells : (cs.foldl (fun (s : St) c => s.setLinked .cell c) { st with cells := cs }).cells = cs := e.members .cell
+      rw [hcells] at hd
+      exact hg d hd
+    · exact h.good
+  | addCellChildren =>
+    simp only [step, addCellChildren]
+    split
+    · exact h.good
+    · intro d hd
+      exact (h.good d hd).mono ⟨rfl, rfl, rfl, fun hx => hx⟩
+        (fun x hx => by dsimp only; split <;> first | rfl | exact hx)
+        (fun x hx => by dsimp only; split <;> first | rfl | exact hx)
+        (fun _ hx => hx)
+
+/-- **C16_reachable** — induction over ALL histories of modelled operations, from any state that satisfies
+    `Reach`: the empty pool (`C16_reach_blank`) and every state `load` produces (`C16_init`). -/
+theorem C16_reachable (ops : List Op) : ∀ (st : St), Reach st → Reach (run st ops) := by
+  induction ops with
+  | nil => intro st h; exact h
+  | cons op t ih => intro st h; exact ih (step st op).1 (C16_step st op h)
+
+theorem C16_reach_blank (cnum snum mnum unum tnum : ObjId → Int) (strans : ObjId → Option ObjId) :
+    Reach (St.blank cnum snum mnum unum tnum strans) :=
+  ⟨C16_contain_blank _ _ _ _ _ _, C16_linked_blank _ _ _ _ _ _, fun d hd => by simp [St.blank] at hd⟩
+
+/-! ## `load` produces a state that satisfies the invariant -/
+
+/-- "members linked" and "pointees of problem cells linked", the two parts of `Reach` that are carried through
+    the stages of `load` (containment comes from `C16_load`) -/
+def LG (st : St) : Prop := InvLinked st ∧ ∀ d ∈ st.cells, GoodCell st d
+
+theorem LG.pExt {st st' : St} (h : LG st) (e : PExt st st') : LG st' :=
+  ⟨h.1.ext e.toLink, fun d hd => by
+    have : st'.cells = st.cells := e.members .cell
+    rw [this] at hd
+    exact (h.2 d hd).pExt e⟩
+
+theorem updatePointersP_ext (c : ObjId) : ∀ (t : PHS) (st : St), Ext st (updatePointersP c t st).1.1 := by
+  intro t
+  induction t with
+  | leaf ic n side =>
+    intro st
+    simp only [updatePointersP]
+    cases ic with
+    | true =>
+      simp only [if_true]
+      split
+      · exact Ext.refl st
+      · rename_i d _
+        dsimp only
+        split
+        · exact Ext.refl st
+        · exact (cellCompAppend_spec st c d).1
+    | false =>
+      simp only [Bool.false_eq_true, if_false]
+      split
+      · exact Ext.refl st
+      · rename_i s _
+        dsimp only
+        split
+        · exact Ext.refl st
+        · exact (cellSurfAppend_spec st c s).1
+  | compl l ih =>
+    intro st
+    have := ih st
+    simp only [updatePointersP]
+    generalize updatePointersP c l st = r at this ⊢
+    obtain ⟨⟨st1, e⟩, og⟩ := r
+    cases e <;> cases og <;> exact this
+  | bin u l r ihl ihr =>
+    intro st
+    have h1 := ihl st
+    simp only [updatePointersP]
+    generalize updatePointersP c l st = r1 at h1 ⊢
+    obtain ⟨⟨st1, e⟩, og⟩ := r1
+    cases e with
+    | some err => cases og <;> exact h1
+    | none =>
+      cases og with
+      | none => exact h1
+      | some l' =>
+        dsimp only
+        have h2 := ihr st1
+        generalize updatePointersP c r st1 = r2 at h2 ⊢
+        obtain ⟨⟨st2, e2⟩, og2⟩ := r2
+        cases e2 <;> cases og2 <;> exact h1.trans h2
+
+/-- an `updCell` on cell `c` that keeps the link flag: members and links as before; a cell stays good if it is
+    another cell, or if the new record of `c` is good -/
+theorem LG.updCell {st : St} (h : LG st) (c : ObjId) (f : CellSt → CellSt)
+    (hl : (f (st.cellOf c)).link = (st.cellOf c).link)
+    (hg : c ∈ st.cells → GoodCell (st.updCell c f) c) : LG (st.updCell c f) := by
+  refine ⟨h.1.ext (linkExt_updCell st c f (fun x => by rw [hl]; exact x)), fun d hd => ?_⟩
+  by_cases hdc : d = c
+  · subst hdc; exact hg hd
+  · exact (h.2 d hd).mono (by simp [updCell_cellOf, hdc]) (fun _ hx => hx) (fun _ hx => hx) (fun _ hx => hx)
+
+theorem mem_linked_of_firstWith {st : St} (h : InvLinked st) (k : Kind) (n : Int) (o : ObjId)
+    (hf : firstWith (st.num k) n (st.members k) = some o) : st.linked k o = true :=
+  h k o (firstWith_some _ _ _ _ hf).1
+
+theorem resolveMaterial_lg (st : St) (c : ObjId) (n : Int) (h : LG st) : LG (resolveMaterial st c n).1 := by
+  unfold resolveMaterial
+  dsimp only
+  have h0 : LG (st.updCell c (fun cs => { cs with oldMat := n })) :=
+    h.updCell c _ rfl (fun hc => (h.2 c hc).mono (by simp) (fun _ hx => hx) (fun _ hx => hx) (fun _ hx => hx))
+  split
+  · split
+    · rename_i m hm
+      refine h0.updCell c _ rfl (fun hc => ?_)
+      have hg := h0.2 c hc
+      have hml : st.mlink m = true := mem_linked_of_firstWith h.1 .material n m hm
+      refine ⟨by simpa using hg.1, fun s hs => hg.2.1 s (by simpa using hs), fun m' hm' => ?_,
+        fun u hu => hg.2.2.2 u (by simpa using hu)⟩
+      have : m = m' := by simpa using hm'
+      subst this
+      exact hml
+    · exact h0
+  · refine h0.updCell c _ rfl (fun hc => ?_)
+    have hg := h0.2 c hc
+    exact ⟨by simpa using hg.1, fun s hs => hg.2.1 s (by simpa using hs), fun m' hm' => by simp at hm',
+      fun u hu => hg.2.2.2 u (by simpa using hu)⟩
+
+theorem cellUpdatePointers_lg (st : St) (c : ObjId) (pc : PCell) (h : LG st) :
+    LG (cellUpdatePointers st c pc).1 := by
+  unfold cellUpdatePointers
+  have h1 := resolveMaterial_lg st c pc.mat h
+  generalize resolveMaterial st c pc.mat = r at h1 ⊢
+  obtain ⟨st1, e⟩ := r
+  cases e with
+  | some err => exact h1
+  | none =>
+    dsimp only at h1 ⊢
+    -- new containers, linked like the cell
+    have h2 : LG (st1.updCell c (fun cs => { cs with surfs := [], comps := [], contLinked := cs.link })) := by
+      refine h1.updCell c _ rfl (fun hc => ?_)
+      have hg := h1.2 c hc
+      have hlk : (st1.cellOf c).link = true := h1.1 .cell c hc
+      exact ⟨by simpa using hlk, fun s hs => by simp at hs, fun m hm => hg.2.2.1 m (by simpa using hm),
+        fun u hu => hg.2.2.2 u (by simpa using hu)⟩
+    have h3 := h2.pExt (updatePointersP_ext c pc.geom _).pExt
+    generalize updatePointersP c pc.geom (st1.updCell c (fun cs => { cs with surfs := [], comps := [], contLinked := cs.link })) = up at h3 ⊢
+    obtain ⟨⟨st2, e2⟩, og⟩ := up
+    cases e2 with
+    | some err => cases og <;> exact h3
+    | none =>
+      cases og with
+      | none => exact h3
+      | some g => exact h3.pExt (pExt_updGeom st2 c (some g))
+
+theorem updateAllCells_lg : ∀ (l : List (ObjId × PCell)) (st : St), LG st → LG (updateAllCells l st).1 := by
+  intro l
+  induction l with
+  | nil => intro st h; exact h
+  | cons a t ih =>
+    intro st h
+    obtain ⟨c, pc⟩ := a
+    simp only [updateAllCells]
+    have h1 := cellUpdatePointers_lg st c pc h
+    generalize cellUpdatePointers st c pc = r at h1 ⊢
+    obtain ⟨st1, e⟩ := r
+    cases e with
+    | some err => exact h1
+    | none => exact ih st1 h1
+
+theorem pushUniverses_lg : ∀ (l : List (ObjId × PCell)) (st : St) (nextU : ObjId), LG st →
+    LG (pushUniverses l st nextU).1 := by
+  intro l
+  induction l with
+  | nil => intro st n h; exact h
+  | cons a t ih =>
+    intro st n h
+    obtain ⟨c, pc⟩ := a
+    simp only [pushUniverses]
+    split
+    · rename_i u hu
+      refine ih _ _ (h.updCell c _ rfl (fun hc => ?_))
+      have hg := h.2 c hc
+      have hul : st.ulink u = true := mem_linked_of_firstWith h.1 .universe _ u hu
+      refine ⟨by simpa using hg.1, fun s hs => hg.2.1 s (by simpa using hs),
+        fun m hm => hg.2.2.1 m (by simpa using hm), fun u' hu' => ?_⟩
+      have : u = u' := by simpa using hu'
+      subst this
+      exact hul
+    · -- a new universe: made, linked, appended
+      have h1 : LG { st with unum := upd st.unum n (pc.univ.getD 0), ulink := upd st.ulink n true,
+                             universes := st.universes ++ [n] } := by
+        refine ⟨fun k o ho => ?_, fun d hd => (h.2 d hd).mono ⟨rfl, rfl, rfl, fun hx => hx⟩ (fun _ hx => hx)
+          (fun _ hx => hx) (fun x hx => by show upd st.ulink n true x = true; unfold upd; split <;> first | rfl | exact hx)⟩
+        cases k
+        · exact h.1 .cell o ho
+        · exact h.1 .surface o ho
+        · exact h.1 .material o ho
+        · show upd st.ulink n true o = true
+          unfold upd
+          split
+          · rfl
+          · rename_i hne
+            have ho' : o ∈ st.universes ++ [n] := ho
+            rcases List.mem_append.mp ho' with ho1 | ho1
+            · exact h.1 .universe o ho1
+            · simp only [List.mem_singleton] at ho1; exact absurd ho1 hne
+        · exact h.1 .transform o ho
+      refine ih _ _ (h1.updCell c _ rfl (fun hc => ?_))
+      have hg := h1.2 c hc
+      refine ⟨by simpa using hg.1, fun s hs => hg.2.1 s (by simpa using hs),
+        fun m hm => hg.2.2.1 m (by simpa using hm), fun u' hu' => ?_⟩
+      have : n = u' := by simpa using hu'
+      subst this
+      show upd st.ulink n true n = true
+      simp [upd]
+
+theorem pushFills_lg : ∀ (l : List (ObjId × PCell)) (st : St), LG st → LG (pushFills l st).1 := by
+  intro l
+  induction l with
+  | nil => intro st h; exact h
+  | cons a t ih =>
+    intro st h
+    obtain ⟨c, pc⟩ := a
+    simp only [pushFills]
+    split
+    · exact ih st h
+    · split
+      · refine ih _ (h.updCell c _ rfl (fun hc => ?_))
+        have hg := h.2 c hc
+        exact ⟨by simpa using hg.1, fun s hs => hg.2.1 s (by simpa using hs),
+          fun m hm => hg.2.2.1 m (by simpa using hm), fun u hu => hg.2.2.2 u (by simpa using hu)⟩
+      · exact h
+
+theorem appendAll_reach (k : Kind) : ∀ (l : List ObjId) (st : St), Reach st → Reach (appendAll k l st).1 := by
+  intro l
+  induction l with
+  | nil => intro st h; exact h
+  | cons a t ih =>
+    intro st h
+    simp only [appendAll]
+    have h1 : Reach (collAppend st k a).1 := C16_step st (.append k a) h
+    generalize collAppend st k a = r at h1 ⊢
+    obtain ⟨st1, e⟩ := r
+    cases e with
+    | some err => exact h1
+    | none => exact ih st1 h1
+
+theorem appendAll_uniqS (k : Kind) (l : List ObjId) (st : St) (h : UniqS st) : UniqS (appendAll k l st).1 :=
+  appendAll_uniq k l st h
+
+/-- geometry of the cell objects that are not in the file stays what it was -/
+theorem appendAll_sameCells (k : Kind) : ∀ (l : List ObjId) (st : St), Same st (appendAll k l st).1 := by
+  intro l
+  induction l with
+  | nil => intro st; exact Same.refl st
+  | cons a t ih =>
+    intro st
+    simp only [appendAll]
+    have h1 : Same st (collAppend st k a).1 := same_step st (.append k a) trivial
+    generalize collAppend st k a = r at h1 ⊢
+    obtain ⟨st1, e⟩ := r
+    cases e with
+    | some err => exact h1
+    | none => exact h1.trans (ih st1)
+
+/-- **C16_init** — every state that the model's `load` produces from the empty pool satisfies `Reach`:
+    containment for every cell object (exactly, for the cells of the file: `C16_load`), every member of the five
+    collections linked, and the surfaces, material and universe of every cell of the problem linked. -/
+theorem C16_init (cnum snum mnum unum tnum : ObjId → Int) (strans : ObjId → Option ObjId)
+    (pcs : List PCell) (nS nM nT : Nat) (nextU : ObjId)
+    (h : (load (St.blank cnum snum mnum unum tnum strans) pcs nS nM nT nextU).1.2 = none) :
+    Reach (load (St.blank cnum snum mnum unum tnum strans) pcs nS nM nT nextU).1.1 := by
+  have hblank := C16_reach_blank cnum snum mnum unum tnum strans
+  have hu : UniqS (St.blank cnum snum mnum unum tnum strans) := by simp [UniqS, St.blank]
+  -- containment: the cells of the file by `C16_load`; every other cell object still has no geometry
+  have hexact := C16_load _ pcs nS nM nT nextU hu h
+  generalize hst : St.blank cnum snum mnum unum tnum strans = st at *
+  have hgeom0 : ∀ c, (st.cellOf c).geom = none := by intro c; rw [← hst]; rfl
+  unfold load at h hexact ⊢
+  dsimp only at h hexact ⊢
+  have r1 := appendAll_reach .cell (List.range pcs.length) st hblank
+  have s1 := appendAll_sameCells .cell (List.range pcs.length) st
+  have u1 := appendAll_uniq .cell (List.range pcs.length) st hu
+  generalize appendAll .cell (List.range pcs.length) st = a1 at r1 s1 u1 h hexact ⊢
+  obtain ⟨st1, e1⟩ := a1
+  cases e1 with
+  | some err => cases h
+  | none =>
+    dsimp only at r1 s1 u1 h hexact ⊢
+    have r2 := appendAll_reach .surface (List.range nS) st1 r1
+    have s2 := appendAll_sameCells .surface (List.range nS) st1
+    have u2 := appendAll_uniq .surface (List.range nS) st1 u1
+    generalize appendAll .surface (List.range nS) st1 = a2 at r2 s2 u2 h hexact ⊢
+    obtain ⟨st2, e2⟩ := a2
+    cases e2 with
+    | some err => cases h
+    | none =>
+      dsimp only at r2 s2 u2 h hexact ⊢
+      have r3 := appendAll_reach .material (List.range nM) st2 r2
+      have s3 := appendAll_sameCells .material (List.range nM) st2
+      have u3 := appendAll_uniq .material (List.range nM) st2 u2
+      generalize appendAll .material (List.range nM) st2 = a3 at r3 s3 u3 h hexact ⊢
+      obtain ⟨st3, e3⟩ := a3
+      cases e3 with
+      | some err => cases h
+      | none =>
+        dsimp only at r3 s3 u3 h hexact ⊢
+        have r4 := appendAll_reach .transform (List.range nT) st3 r3
+        have s4 := appendAll_sameCells .transform (List.range nT) st3
+        have u4 := appendAll_uniq .transform (List.range nT) st3 u3
+        generalize appendAll .transform (List.range nT) st3 = a4 at r4 s4 u4 h hexact ⊢
+        obtain ⟨st4, e4⟩ := a4
+        cases e4 with
+        | some err => cases h
+        | none =>
+          dsimp only at r4 s4 u4 h hexact ⊢
+          have lg5 : LG { st4 with dataM := List.range nM, dataT := List.range nT } := ⟨r4.linked, r4.good⟩
+          have u5 : UniqS { st4 with dataM := List.range nM, dataT := List.range nT } := u4
+          have hids : (((List.range pcs.length).zip pcs).map Prod.fst) = List.range pcs.length :=
+            List.map_fst_zip (by simp)
+          have lg6 := updateAllCells_lg ((List.range pcs.length).zip pcs) _ lg5
+          generalize hup : updateAllCells ((List.range pcs.length).zip pcs)
+            { st4 with dataM := List.range nM, dataT := List.range nT } = r5 at lg6 h hexact ⊢
+          obtain ⟨st6, e6⟩ := r5
+          cases e6 with
+          | some err => cases h
+          | none =>
+            dsimp only at lg6 h hexact ⊢
+            have hsp := updateAllCells_spec _ _ st6 hup u5 (by rw [hids]; exact List.nodup_range)
+            have lg7 := pushUniverses_lg ((List.range pcs.length).zip pcs) st6 nextU lg6
+            have lg8 := pushFills_lg ((List.range pcs.length).zip pcs) _ lg7
+            have p1 := pushUniverses_same ((List.range pcs.length).zip pcs) st6 nextU
+            have p2 := pushFills_same ((List.range pcs.length).zip pcs)
+              (pushUniverses ((List.range pcs.length).zip pcs) st6 nextU).1
+            refine ⟨fun c => ?_, lg8.1, lg8.2⟩
+            by_cases hc : c < pcs.length
+            · obtain ⟨g, hg, ha, hs, hcm⟩ := hexact c hc
+              intro g' hg'
+              rw [hg] at hg'
+              cases hg'
+              exact ⟨ha, fun s hs' => (hs s).mpr hs', fun d hd => (hcm d).mpr hd⟩
+            · intro g hg
+              exfalso
+              have hnot : c ∉ ((List.range pcs.length).zip pcs).map Prod.fst := by
+                rw [hids]; simpa using hc
+              have e6 := (hsp.2.1 c hnot).1
+              have e4 : (st4.cellOf c).geom = (st.cellOf c).geom :=
+                (((s1.trans s2).trans s3).trans s4 c).1
+              rw [((p1.trans p2) c).1, e6] at hg
+              have : (st4.cellOf c).geom = some g := hg
+              rw [e4, hgeom0 c] at this
+              cases this
+
+/-! ## what the invariant gives: the reverse look-ups are exact in every reachable state -/
+
+/-- **C16_exact_surface** — in a state that satisfies `Reach`, `surface.cells` is exactly the cells of the problem
+    that hold the surface (no link hypothesis: a surface a problem cell holds is linked). -/
+theorem C16_exact_surface (st : St) (h : Reach st) (s d : ObjId) :
+    d ∈ surfaceCells st s ↔ d ∈ st.cells ∧ s ∈ (st.cellOf d).surfs := by
+  rw [C16_reverse_surface_exact]
+  exact ⟨fun ⟨_, hd, hs⟩ => ⟨hd, hs⟩, fun ⟨hd, hs⟩ => ⟨(h.good d hd).2.1 s hs, hd, hs⟩⟩
+
+/-- … in particular every cell of the problem whose *geometry* uses `s` -/
+theorem C16_exact_surface_geometry (st : St) (h : Reach st) (s d : ObjId) (g : HS) (hd : d ∈ st.cells)
+    (hg : (st.cellOf d).geom = some g) (hs : s ∈ g.surfs) : d ∈ surfaceCells st s :=
+  (C16_exact_surface st h s d).mpr ⟨hd, (h.contain d g hg).2.1 s hs⟩
+
+/-- **C16_exact_material** -/
+theorem C16_exact_material (st : St) (h : Reach st) (m d : ObjId) :
+    d ∈ materialCells st m ↔ d ∈ st.cells ∧ (st.cellOf d).mat = some m := by
+  rw [C16_reverse_material]
+  exact ⟨fun ⟨_, hd, hm⟩ => ⟨hd, hm⟩, fun ⟨hd, hm⟩ => ⟨(h.good d hd).2.2.1 m hm, hd, hm⟩⟩
+
+/-- **C16_exact_universe** -/
+theorem C16_exact_universe (st : St) (h : Reach st) (u d : ObjId) :
+    d ∈ universeCells st u ↔ d ∈ st.cells ∧ (st.cellOf d).univ = some u := by
+  rw [C16_reverse_universe]
+  exact ⟨fun ⟨_, hd, hu⟩ => ⟨hd, hu⟩, fun ⟨hd, hu⟩ => ⟨(h.good d hd).2.2.2 u hu, hd, hu⟩⟩
+
+/-- named exclusion (known finding C16-F2a): the complemented cell itself is linked to the problem — it is for
+    every cell of the problem and for every cell a problem cell started to complement while it was in the problem -/
+def CompLinked (st : St) (c : ObjId) : Prop := (st.cellOf c).link = true
+
+/-- **C16_exact_complement** -/
+theorem C16_exact_complement (st : St) (c d : ObjId) (hc : CompLinked st c) :
+    d ∈ cellsComplementing st c ↔ d ∈ st.cells ∧ d ≠ c ∧ c ∈ (st.cellOf d).comps := by
+  rw [C16_reverse_complement]
+  exact ⟨fun ⟨_, h⟩ => h, fun h => ⟨hc, h⟩⟩
+
+theorem compLinked_of_member (st : St) (h : Reach st) (c : ObjId) (hc : c ∈ st.cells) : CompLinked st c :=
+  h.linked .cell c hc
+
+/-- named exclusion (known finding C16-F3): the cell has a universe (every cell that was read has; a `Cell()`
+    made from scratch has none until one is assigned) -/
+def HasUniverse (st : St) (d : ObjId) : Prop := ∃ u, (st.cellOf d).univ = some u
+
+/-- **C16_exact_partition** — every cell of the problem that has a universe is in exactly one universe's
+    `.cells` (no `UnivOK` hypothesis any more: the universe is linked by the invariant). -/
+theorem C16_exact_partition (st : St) (h : Reach st) (d : ObjId) (hd : d ∈ st.cells) (hu : HasUniverse st d) :
+    ∃ u, d ∈ universeCells st u ∧ ∀ u', d ∈ universeCells st u' → u' = u := by
+  obtain ⟨u, hu⟩ := hu
+  refine ⟨u, (C16_exact_universe st h u d).mpr ⟨hd, hu⟩, fun u' h' => ?_⟩
+  have := ((C16_exact_universe st h u' d).mp h').2
+  rw [hu] at this
+  cases this
+  rfl
+
+/-- **C16_main** — the property over inputs and histories: read any file (the model's `load` from the empty pool
+    does not raise), apply any sequence of the modelled operations: the resulting state satisfies `Reach`, hence
+    containment and the exact reverse look-ups above. -/
+theorem C16_main (cnum snum mnum unum tnum : ObjId → Int) (strans : ObjId → Option ObjId)
+    (pcs : List PCell) (nS nM nT : Nat) (nextU : ObjId) (ops : List Op)
+    (h : (load (St.blank cnum snum mnum unum tnum strans) pcs nS nM nT nextU).1.2 = none) :
+    Reach (run (load (St.blank cnum snum mnum unum tnum strans) pcs nS nM nT nextU).1.1 ops) :=
+  C16_reachable ops _ (C16_init cnum snum mnum unum tnum strans pcs nS nM nT nextU h)
+
+/-- non-vacuity: the two-cell file loads; after an edit history both cells have a universe, cell 0 is linked and
+    complemented by cell 1, and the reverse look-ups are non-empty -/
+example :
+    let st := run (load (demo false) demoFile 2 0 0 0).1.1
+      [.setGeometry 0 (.bin true (.leaf false 2 true none) (.leaf false 0 false none) none), .setMaterial 1 (some 2)]
+    (load (demo false) demoFile 2 0 0 0).1.2 = none ∧ st.cells = [0, 1] ∧
+    (st.cellOf 0).univ = some 0 ∧ (st.cellOf 1).univ = some 1 ∧ (st.cellOf 0).link = true ∧
+    surfaceCells st 2 = [0] ∧ surfaceCells st 0 = [0, 1] ∧ materialCells st 2 = [1] ∧
+    universeCells st 1 = [1] ∧ cellsComplementing st 0 = [1] := by decide
 
 end MontePyVerif.Links
